@@ -101,7 +101,7 @@ def facts(st):
     return out
 
 
-def try_activate(fn, env, text, strict_first=False):
+def try_activate(fn, env, text, strict_first=False, scope=False):
     orig = fn.__code__ if hasattr(fn, "__code__") else None
     outcome, prov = "ok", ""
     if strict_first:
@@ -112,7 +112,13 @@ def try_activate(fn, env, text, strict_first=False):
         except Exception:
             pass
     try:
-        p = probing(text, env=env)
+        if scope:
+            # no env=: the names are locals of the function the probe is written in
+            glb = {"__name__": "harness_names_scope", "probing": probing}
+            exec(f"def _scope({', '.join(sorted(env))}):\n    return probing({text!r})\n", glb)
+            p = glb["_scope"](**env)
+        else:
+            p = probing(text, env=env)
         with p:
             info = getattr(fn, "__ptera_info__", None) or {}
             name = text.split(">")[1].strip()
@@ -168,6 +174,11 @@ def main():
     for name, obj in others.items():
         outcome, prov, clean = try_activate(obj, {name: obj}, f"{name} > x")
         cases.append({"id": len(cases), "fn": name, "ident": "x", "kind": "nonfunc", "sub": name, "outcome": outcome, "prov": "", "clean": clean})
+    # the same, named in the scope the probe is written in (no env=); falsy objects are objects like any other
+    others.update({"a_zero": 0, "an_empty_str": "", "an_empty_list": [], "a_none": None})
+    for name, obj in others.items():
+        outcome, prov, clean = try_activate(obj, {name: obj}, f"{name} > x", scope=True)
+        cases.append({"id": len(cases), "fn": name, "ident": "x", "kind": "nonfunc", "sub": "scope:" + name, "outcome": outcome, "prov": "", "clean": clean})
     outcome, prov, clean = try_activate(NW.plain, {"plain": NW.plain}, "no_such_function > x")
     cases.append({"id": len(cases), "fn": "no_such_function", "ident": "x", "kind": "nofunc", "sub": "", "outcome": outcome, "prov": "", "clean": clean})
     json.dump(cases, open(sys.argv[1], "w"))
